@@ -359,3 +359,11 @@ def check_memcpy(ctx, F):
         ctx.instance("C11.memcpy", b["name"] + "/" + ",".join(str(i[0]) for i in info)[:80], {"instantiation": site, "operands": info})
         if bad:
             ctx.violation("C11.memcpy", site, "%s (%s)" % (site, F.floc(fid)), "%s: %s" % (site, bad), {})
+
+
+# planted positive examples (witness/canary.cpp): every construct the rule exists for must be reported there on every run
+CANARY = {"check": [check_no_alloc],
+          "expect": ["C11.no-alloc|new@None::make", "C11.no-alloc|new@None::many", "C11.no-alloc|delete@None::drop", "C11.no-alloc|malloc@None::make",
+                     "C11.no-alloc|free@None::make", "C11.no-alloc|include/<vector", "C11.no-alloc|member/Node::owned"],
+          "forbid": ["new@None::in_place"]}
+
